@@ -34,7 +34,9 @@ class RequestsVerify(SimpleCodemod):
         """
 
     def on_result_found(self, original_node, updated_node):
+        # Build the new args from the updated node so that edits already made to
+        # nested calls (e.g. a request whose argument is another request) are kept
         new_args = self.replace_args(
-            original_node, [NewArg(name="verify", value="True", add_if_missing=False)]
+            updated_node, [NewArg(name="verify", value="True", add_if_missing=False)]
         )
         return self.update_arg_target(updated_node, new_args)
